@@ -52,6 +52,9 @@ TRIGGERS = [
      [["e", 1]], ["e(1)", "e(2)"], ["math"]),
     ("inline", "{ pe(V,Y) } :- dpe(V,Y).\nh(V,S) :- g(V), S = #sum { Y : pe(V,Y) }.\nfoo(X) :- X = #sum { S,V : h(V,S) ; 2,1,unique : e(1) }.",
      [["dpe", 2], ["g", 1], ["e", 1]], ["g(1)", "g(2)", "dpe(1,2)", "dpe(2,2)", "e(1)"], ["inline"]),
+    ("minmax_cond", "{ q(P,V) } :- dq(P,V).\nr(P,M) :- grp(P), M = #min { V : q(P,V) }, ok(P,W) : cand(P,W).",
+     [["dq", 2], ["grp", 1], ["ok", 2], ["cand", 2], ["e", 1]],
+     ["grp(1)", "grp(2)", "dq(1,5)", "dq(2,5)", "cand(1,3)", "ok(1,3)", "e(1)"], ["minmax_chains"]),
     ("inline_objective", "{ buy(P,I) } :- offer(P,I).\ntotal(P,S) :- person(P), S = #sum { C,I : buy(P,I), cost(I,C) }.\n"
                          "#minimize { S@1,P : total(P,S) }.",
      [["offer", 2], ["person", 1], ["cost", 2], ["e", 1]],
@@ -95,6 +98,18 @@ def attack_statements(pred) -> str:
     atom = f"{name}({args})" if arity else name
     body = "e(X)" if arity else "e(1)"
     return f"{atom} :- {body}.\nzz_{arity}({args or '1'}) :- {atom}, not e(3)."
+
+
+def attack_statements_other(pred) -> list[tuple[str, str]]:
+    """the source uses the name only OUTSIDE of rule bodies and heads of ordinary atoms: classically negated, in the
+    condition of a #show term, as #external atom"""
+    name, arity = pred
+    args = ",".join(["X"] * arity)
+    atom = f"{name}({args})" if arity else name
+    body = "e(X)" if arity else "e(1)"
+    return [("classical", f"-{atom} :- {body}."),
+            ("show_body", f"#show zz(X) : {atom}, e(X)." if arity else f"#show zz : {atom}."),
+            ("external", f"#external {atom} : {body}. zz_{arity}({args or '1'}) :- {atom}.")]
 
 
 def rename_var(prog: str, old: str, new: str) -> str:
@@ -153,6 +168,10 @@ def jobs(tier: str):
         for p in attack_preds:
             yield job("C07/pred", prog + "\n" + attack_statements(p), universe, cfgs(text=prog + "\n" + attack_statements(p)), checks=checks,
                       meta=dict(meta, attack=f"pred {p[0]}/{p[1]}"))
+        for p in [x for x in attack_preds if x in preds_all]:
+            for kind, text in attack_statements_other(p):
+                yield job("C07/pred_other", prog + "\n" + text, universe, cfgs(text=prog + "\n" + text), checks=checks,
+                          meta=dict(meta, attack=f"{kind} {p[0]}/{p[1]}"))
         if not quick:
             for p1, p2 in combinations([p for p in attack_preds if p in preds_all], 2):
                 yield job("C07/pred2", prog + "\n" + attack_statements(p1) + "\n" + attack_statements(p2), universe,
